@@ -122,8 +122,9 @@ theorem values_rewriteHeaders (inH : Hdrs) (p : Pipe) (peer inHost fwdHost proto
       rw [hout4, hout3, hbase]
 
 theorem values_uaLine (h : Hdrs) (k : Bytes) : values (uaLine h) k =
-    if k = hUserAgent then (match values h hUserAgent with | v :: _ => if v = [] then [] else [v] | [] => []) else [] := by
-  unfold uaLine
+    if k = hUserAgent then (match values h hUserAgent with | v :: _ => if v = [] then [] else [trimOWS v] | [] => [])
+    else [] := by
+  unfold uaLine wireValue
   by_cases hk : k = hUserAgent
   · subst hk
     simp only [if_true]
@@ -144,16 +145,54 @@ theorem values_gzipLine (m : Bytes) (h : Hdrs) (k : Bytes) (hk : k ≠ hAcceptEn
     split <;> simp [values_cons, values_nil, this]
   · simp [hk, values_nil]
 
-/-- header lines written from the header map as they are -/
+/-- what `gzipLine` can add under any name: nothing, or the line `Accept-Encoding: gzip` -/
+theorem values_gzipLine_mem (m : Bytes) (h : Hdrs) (k w : Bytes) (hw : w ∈ values (gzipLine m h) k) :
+    k = hAcceptEncoding ∧ w = b!"gzip" := by
+  unfold gzipLine at hw
+  split at hw
+  · rw [values_cons, values_nil] at hw
+    by_cases e : hAcceptEncoding = k
+    · simp only [e, if_true, List.mem_singleton] at hw
+      exact ⟨e.symm, hw⟩
+    · simp [e] at hw
+  · simp [values_nil] at hw
+
+/-- values are written without surrounding blanks -/
+theorem values_mapValue (f : Bytes → Bytes) (h : Hdrs) (k : Bytes) :
+    values (h.map fun x => (x.1, f x.2)) k = (values h k).map f := by
+  unfold values
+  induction h with
+  | nil => rfl
+  | cons x l ih =>
+    simp only [List.map_cons, List.filter_cons]
+    by_cases hx : x.1 = k <;> simp [hx, ih]
+
+/-- header lines written from the header map: every value, in order, without surrounding blanks -/
 theorem values_wireHeaders (m : Bytes) (h : Hdrs) (k : Bytes) (hk : Spec.transportOwned k = false)
     (hua : k ≠ hUserAgent) (hae : k ≠ hAcceptEncoding ∨ get h hAcceptEncoding ≠ []) :
-    values (wireHeaders m h) k = values h k := by
+    values (wireHeaders m h) k = Spec.asRead (values h k) := by
   unfold Spec.transportOwned at hk
   simp only [Bool.or_eq_false_iff, decide_eq_false_iff_not] at hk
   obtain ⟨⟨⟨h1, h4⟩, h5⟩, h6⟩ := hk
-  unfold wireHeaders sortHdrs
-  rw [values_sortByKey, values_append, values_append, values_uaLine, values_gzipLine m h k hae]
+  unfold wireHeaders sortHdrs wireValue Spec.asRead
+  rw [values_sortByKey, values_append, values_append, values_uaLine, values_gzipLine m h k hae, values_mapValue]
   simp only [hua, if_false, List.nil_append, List.append_nil]
+  rw [values_filter (fun n => !notWritten n)]
+  have : notWritten k = false := by
+    unfold notWritten
+    simp [h1, hua, h4, h5, h6]
+  simp [this]
+
+/-- the same without the side condition on `Accept-Encoding`: the line the HTTP client adds may follow -/
+theorem values_wireHeaders_gzip (m : Bytes) (h : Hdrs) (k : Bytes) (hk : Spec.transportOwned k = false)
+    (hua : k ≠ hUserAgent) :
+    values (wireHeaders m h) k = Spec.asRead (values h k) ++ values (gzipLine m h) k := by
+  unfold Spec.transportOwned at hk
+  simp only [Bool.or_eq_false_iff, decide_eq_false_iff_not] at hk
+  obtain ⟨⟨⟨h1, h4⟩, h5⟩, h6⟩ := hk
+  unfold wireHeaders sortHdrs wireValue Spec.asRead
+  rw [values_sortByKey, values_append, values_append, values_uaLine, values_mapValue]
+  simp only [hua, if_false, List.nil_append]
   rw [values_filter (fun n => !notWritten n)]
   have : notWritten k = false := by
     unfold notWritten
@@ -163,10 +202,11 @@ theorem values_wireHeaders (m : Bytes) (h : Hdrs) (k : Bytes) (hk : Spec.transpo
 /-- `User-Agent` is written from its first value, and only if that is not empty -/
 theorem values_wireHeaders_ua (m : Bytes) (h : Hdrs) :
     values (wireHeaders m h) hUserAgent =
-      (match values h hUserAgent with | v :: _ => if v = [] then [] else [v] | [] => []) := by
+      (match values h hUserAgent with | v :: _ => if v = [] then [] else [trimOWS v] | [] => []) := by
   unfold wireHeaders sortHdrs
   have hne : hUserAgent ≠ hAcceptEncoding := by decide
-  rw [values_sortByKey, values_append, values_append, values_uaLine, values_gzipLine m h _ (Or.inl hne)]
+  rw [values_sortByKey, values_append, values_append, values_uaLine, values_gzipLine m h _ (Or.inl hne),
+    values_mapValue]
   simp only [if_true, List.append_nil]
   rw [values_filter (fun n => !notWritten n)]
   have : notWritten hUserAgent = true := by decide
